@@ -572,7 +572,7 @@ def unit_threads(unit):
                 else:
                     t_ = threading.Thread(target=step, args=(i,))
                     t_.start(); t_.join()
-            case = {"steps_run_in_thread": list(sched), "history": variant}
+            case = {"steps_run_in_thread": list(sched), "steps": variant}
             refused = [i for i in range(4) if box.get(("refused", i))]
             errors = [box[("error", i)] for i in range(4) if ("error", i) in box]
             # single-threaded truth: in 'write-a-first' a shares with nobody when written (b does not exist yet) and has left the tuple when b is written
@@ -615,6 +615,8 @@ def coverage_goals(ctx, agg):
 
 def replay(rec):
     case = rec.get("case") or {}
+    if "steps_run_in_thread" in case:
+        return set(unit_threads(("threads",)).viol)
     if "operation" in case and "operand" in case:
         return set(unit_catalogue(("cat", case["operand"], case["form"], case.get("second_operand"))).viol)
     if "history" not in case:
